@@ -5,7 +5,9 @@ R-C10-1  the statement's recovery seed does not reach the verdict: no explicit f
          Tabled: the error edges of the nonce derivation / mask constructor inside the recovery block (cannot fire)
 R-C10-2  the action parameter reaches only the match that selects recovery and the RecoverOnly skip / exit
 R-C10-3  the transcript absorptions read only commitments and promises of the statement, never the seed (field sensitivity)
-R-C10-4  both recovering modes run the same recovery code: the mask push is conditioned on action != VerifyOnly only
+R-C10-4  both recovering modes run the same recovery code: the mask push is reached under exactly RecoverAndVerify and RecoverOnly
+R-C10-5  recovery is keyed by the whole seed (= R-C19-2): the MAC key of every nonce is 0x00 || all 32 seed bytes || tagged indices, so that two
+         distinct seeds give distinct keys (that distinct keys give distinct masks is Blake2b's collision resistance, assumed)
 """
 from bpsa.facts import callee_decl, callee_name
 from bpsa.normal import canon
@@ -30,7 +32,7 @@ def has_action(t, v, act):
     return any(x.tag == 'param' and x[1] == v.key and x[2] == act for x in walk(t))
 
 
-def run(ctx):
+def _run(ctx):
     rep = ctx.rep
     g = weights.gate(ctx, 'R-C10-1')
     if g is None:
@@ -178,3 +180,10 @@ def run(ctx):
                       'mask computation is reached under %s%s' % (sorted(vset) if vset is not None else None, (' (not understood: %s)' % unknown) if unknown else ''), ctx.where(v, e['bb']))
             rep.check(has_seed(val) and not has_action(val, v, act), 'R-C10-4', 'R-C10-4/mask-depends-on-seed-only', 'the recovered mask depends on the seed and not on the action',
                       'recovered mask: depends on seed=%s, on action=%s' % (has_seed(val), has_action(val, v, act)), ctx.where(v, e['bb']))
+
+
+def run(ctx):
+    _run(ctx)
+    from . import C19
+    from .common import shared
+    shared(ctx, C19.nonce_derivation, 'R-C19-2', 'R-C10-5')
